@@ -375,16 +375,16 @@ class AnsiString:
             # Ignore - nothing to apply
             return
 
+        if not settings:
+            ansi_settings = None
+        else:
+            ansi_settings = _AnsiSettingPoint._scrub_ansi_settings(settings)
+
         if start not in self._fmts:
             self._fmts[start] = _AnsiSettingPoint()
 
         if end not in self._fmts:
             self._fmts[end] = _AnsiSettingPoint()
-
-        if not settings:
-            ansi_settings = None
-        else:
-            ansi_settings = _AnsiSettingPoint._scrub_ansi_settings(settings)
 
         removed_settings = []
         for idx, settings_point, current_settings in _AnsiSettingsIterator(self._fmts):
